@@ -104,6 +104,7 @@ structure Reloc where
   tgtSec     : Option Nat
   srcOff     : Nat
   payload    : BitVec 64
+  gl         : Option (Nat × BitVec 64) := none   -- GHOST: (label, addend) of an entry that designates `label + addend`
   deriving Repr, Inhabited
 
 /-- `AddressTableEntry` -/
@@ -304,7 +305,7 @@ def embedLabel (s : State) (l : Nat) (size0 : Nat) : State × Err :=
     if !isPow2UpTo8 size then (s, .invalidOperandSize) else
     let fmt := simpleValue .unsigned size
     let re : Reloc := { type := .relToAbs, fmt := fmt, regionSize := size, srcSec := s.cur, tgtSec := none,
-                        srcOff := s.curOff, payload := 0#64 }
+                        srcOff := s.curOff, payload := 0#64, gl := some (l, 0#64) }
     match le with
     | .bound lsec loff =>
       let (s1, _) := newReloc s { re with tgtSec := some lsec, payload := loff }
